@@ -9,6 +9,7 @@ package sim
 // no fmt.
 
 import (
+	"fmt"
 	"runtime"
 	"sync"
 )
@@ -436,4 +437,29 @@ func (s *Sched) clientIdOf(addr string) int64 {
 	s.mu.Unlock()
 	raceOn()
 	return id
+}
+
+// describe lists every live task: name, whether it is parked (and where) or
+// blocked inside the emulator, and the site it passed last.
+func (s *Sched) describe() string {
+	var cs [maxTasks]cand
+	var bl [maxTasks]bool
+	n, _ := s.snapshot(&cs, &bl)
+	parked := map[int]bool{}
+	out := ""
+	for i := 0; i < n; i++ {
+		parked[cs[i].slot] = true
+		st := "parked"
+		if bl[i] {
+			st = "parked, wants a held mutex"
+		}
+		out += fmt.Sprintf("    %s: %s at %s\n", candName(&cs[i]), st, cs[i].site)
+	}
+	for i := range s.tasks {
+		t := &s.tasks[i]
+		if t.used && !parked[i] {
+			out += fmt.Sprintf("    c%d.%s#%d: blocked inside the emulator after %s\n", t.id, t.kind, t.seq, t.site)
+		}
+	}
+	return out
 }
